@@ -96,6 +96,7 @@ type faultPlan struct {
 	// cannot catch it); from then on requests are never answered, which parks the requester
 	stuck     chan struct{}
 	stuckOnce sync.Once
+	refusals  int // honest "I do not hold that chunk" answers
 }
 
 // honestAnswersBound: honest answers after the last planned fault before the requester counts as stuck.
@@ -107,22 +108,42 @@ const (
 	fGarbage
 	fWrongChunk
 	fTruncated
+	fSlow    // the right chunk, 2.4 simulated seconds late
+	fSlowish // the right chunk after 1 simulated second
 	nFaults
 )
 
-var fNames = []string{"honest", "error", "garbage", "wrong-chunk", "truncated"}
+var fNames = []string{"honest", "error", "garbage", "wrong-chunk", "truncated", "slow", "slowish"}
 
 type faultHandler struct {
 	inner p2p.Handler
 	plan  *faultPlan
 	self  bool // the requester's own handler is never faulted (it simply does not have the chunk)
+	// honestOnly: answers are never altered (this requester is not the fault plan's target)
+	honestOnly bool
 }
 
 func (*faultHandler) AppGossip(context.Context, ids.NodeID, []byte) {}
 
 func (f *faultHandler) AppRequest(ctx context.Context, from ids.NodeID, deadline time.Time, req []byte) ([]byte, *common.AppError) {
 	out, appErr := f.inner.AppRequest(ctx, from, deadline, req)
-	if f.self || appErr != nil {
+	if f.self {
+		return out, appErr
+	}
+	if appErr != nil {
+		// the peer does not hold the chunk: an honest refusal. It still counts against the bound on how
+		// long a requester may go on asking (a busy retry loop never lets simulated time pass)
+		f.plan.mu.Lock()
+		f.plan.refusals++
+		over := f.plan.stuck != nil && f.plan.refusals > 40*honestAnswersBound
+		f.plan.mu.Unlock()
+		if over {
+			f.plan.stuckOnce.Do(func() { close(f.plan.stuck) })
+			select {}
+		}
+		return out, appErr
+	}
+	if f.honestOnly {
 		return out, appErr
 	}
 	f.plan.mu.Lock()
@@ -149,6 +170,10 @@ func (f *faultHandler) AppRequest(ctx context.Context, from ids.NodeID, deadline
 		return o
 	}
 	switch b {
+	case fSlow:
+		time.Sleep(2400 * time.Millisecond)
+	case fSlowish:
+		time.Sleep(time.Second)
 	case fError:
 		return nil, &common.AppError{Code: 77, Message: "injected peer error"}
 	case fGarbage:
@@ -298,8 +323,10 @@ func newNet(ctx context.Context, t *testing.T, cfg netCfg) ([]*dNode, error) {
 			if i == j {
 				continue
 			}
-			if cfg.Plan != nil && cfg.PlanForNode == i {
-				getPeers[vals[j].NodeID] = &faultHandler{inner: ps[j].get, plan: cfg.Plan}
+			if cfg.Plan != nil {
+				// every requester's peers count refusals (livelock detection); only the chosen node's peers
+				// follow the fault plan
+				getPeers[vals[j].NodeID] = &faultHandler{inner: ps[j].get, plan: cfg.Plan, honestOnly: cfg.PlanForNode != i}
 			} else {
 				getPeers[vals[j].NodeID] = ps[j].get
 			}
